@@ -35,7 +35,7 @@ def cross_family(tier, observer=None, with_no_logger=True):
     add("c09", c09.scenarios(tier), keep=lambda n: n[0] in "IJK")
     add("c13", c13.halt_scenarios())
     add("c14", c14.scenarios(tier), keep=lambda n: n.startswith("both:") or n.startswith("mistake+limit") or n.startswith("two_fshocks") or "shock+" in n or ("-t1-" in n and "-on" in n and ("-r0.5" in n or "-hft" in n)))
-    add("c15", c15.scenarios(tier), keep=lambda n: n.startswith("two_rules") or ("-r0.25-tick1.0-" in n and n.endswith("-on")))
+    add("c15", c15.scenarios(tier), keep=lambda n: n.startswith("two_rules") or n.startswith("prefix_names") or ("-r0.25-tick1.0-" in n and (n.endswith("-on") or n.endswith("-hft_agent") or "other_events" in n)))
     add("c16", c16.scenarios(tier), keep=lambda n: "-L2-" in n or "-L2" in n or "sweep" in n or "two_tier" in n or "step0" in n)
     add("c17", c17.scenarios(tier))
     add("c06", c06.scenarios(tier), keep=lambda n: not n.startswith("sess:2s") or "True, True" in n)
